@@ -315,6 +315,16 @@ theorem typed_views_agree {s : Bytes} {d : JVal} (h : parseDoc s = some d) (hk :
   ⟨views_agree h hk o p hr _, views_agree h hk o p hr _, views_agree h hk o p hr _, views_agree h hk o p hr _,
    views_agree h hk o p hr _, views_agree h hk o p hr _, views_agree h hk o p hr _, views_agree h hk o p hr _⟩
 
+/-- the *UseNode conversions of the located node (`ArrayUseNode`, `MapUseNode`, `InterfaceUseNode`:
+    the children themselves - all of them, in document order for an array, one per distinct key for
+    an object) and the *UseNumber ones (`toGeneric`), as instances of `views_agree` -/
+theorem usenode_views_agree {s : Bytes} {d : JVal} (h : parseDoc s = some d) (hk : keysWF d = true) (o : Options) (p : Path)
+    {raw : Bytes} (hr : search o s p = .found raw) :
+    (parseDoc raw).map arrayNodes = (locate d p).map arrayNodes ∧
+    (parseDoc raw).map mapNodes = (locate d p).map mapNodes ∧
+    (parseDoc raw).map toGeneric = (locate d p).map toGeneric :=
+  ⟨views_agree h hk o p hr _, views_agree h hk o p hr _, views_agree h hk o p hr _⟩
+
 /-! ## non-vacuity: concrete documents (escaped key, duplicate key, brackets and quotes inside
     skipped strings, white space) -/
 
